@@ -82,7 +82,11 @@ fn untouched_text_survives_rejoin(
         while cursor < bytes.len() && !bytes[cursor].is_ascii_alphanumeric() {
             cursor += 1;
         }
-        let gap = &identifier_without_prefix[gap_start..cursor];
+        // The tokenizer drops non-ASCII bytes inside a word, so a token can be shorter than the text
+        // it spans and the computed offsets can fall inside a character: no guarantee then.
+        let Some(gap) = identifier_without_prefix.get(gap_start..cursor) else {
+            return false;
+        };
         let inside_window = matched_windows
             .iter()
             .any(|(start, end)| *start < index && index < *end);
